@@ -237,8 +237,17 @@ func (r *registerRule) OnInstr(e *Engine, st *State, fc *FrameCtx, in ssa.Instru
 				b[gRegion] = 'y'
 			}
 			// arguments: (from, to) of this registration
-			if len(c.Args) == 3 && len(r.pc) > 2 {
-				if !(e.CanonS(fc, stripConv(c.Args[1])) == r.pc[1] && e.CanonS(fc, stripConv(c.Args[2])) == r.pc[2]) {
+			if len(r.pc) > 2 {
+				sawFrom, sawTo := false, false
+				for _, a := range c.Args {
+					switch e.CanonS(fc, stripConv(a)) {
+					case r.pc[1]:
+						sawFrom = true
+					case r.pc[2]:
+						sawTo = true
+					}
+				}
+				if !sawFrom || !sawTo {
 					e.Report(st, in.Pos(), "register/cycle-query-args", "the reachability query is not asked about (source, target) of this registration")
 				}
 			}
@@ -281,8 +290,16 @@ func checkRegister(c *Ctx, p *Prog, R *BusRoles, r1, r2 string) {
 		for _, in := range b.Instrs {
 			if call, ok := in.(*ssa.Call); ok {
 				if sc := call.Common().StaticCallee(); sc != nil && PkgOf(sc) == PkgBus && sc.Signature.Results().Len() == 1 {
-					if bt, ok := sc.Signature.Results().At(0).Type().Underlying().(*types.Basic); ok && bt.Kind() == types.Bool && readsUpMap(sc, R, 0) {
-						cycleFn = sc
+					if bt, ok := sc.Signature.Results().At(0).Type().Underlying().(*types.Basic); ok && bt.Kind() == types.Bool {
+						takesGraph := false
+						for _, a := range call.Common().Args {
+							if _, ok := R.isUpMapLoad(a); ok {
+								takesGraph = true
+							}
+						}
+						if readsUpMap(sc, R, 0) || takesGraph {
+							cycleFn = sc
+						}
 					}
 				}
 			}
@@ -428,8 +445,26 @@ func checkUpMapWriters(c *Ctx, p *Prog, R *BusRoles, rule string) {
 func checkCycleSearch(c *Ctx, p *Prog, R *BusRoles, rule string) {
 	// the recursive searcher: a function in the package that calls itself and reads the graph
 	var dfs *ssa.Function
+	// the graph's type (map from a type name to its upcasters)
+	var graphT types.Type
+	if st := structOf(R.UpRegT); st != nil {
+		for i := 0; i < st.NumFields(); i++ {
+			if st.Field(i).Name() == R.UpMap {
+				graphT = st.Field(i).Type()
+			}
+		}
+	}
+	takesGraph := func(f *ssa.Function) bool {
+		for _, prm := range f.Params {
+			if graphT != nil && types.Identical(prm.Type(), graphT) {
+				return true
+			}
+		}
+		return false
+	}
 	for _, f := range p.FuncsIn(PkgBus) {
-		if f.Parent() != nil || !readsUpMapDirect(f, R) {
+		// reads the graph from the registry, or is handed the graph as an argument
+		if f.Parent() != nil || !(readsUpMapDirect(f, R) || takesGraph(f)) {
 			continue
 		}
 		for _, g := range append([]*ssa.Function{f}, f.AnonFuncs...) {
@@ -478,7 +513,12 @@ func checkCycleSearch(c *Ctx, p *Prog, R *BusRoles, rule string) {
 	for _, b := range dfs.Blocks {
 		for _, in := range b.Instrs {
 			if lk, ok := in.(*ssa.Lookup); ok {
-				if _, ok := R.isUpMapLoad(lk.X); ok && pv(lk.Index) == ssa.Value(cur) {
+				_, isField := R.isUpMapLoad(lk.X)
+				isParamGraph := false
+				if pr, ok := pv(lk.X).(*ssa.Parameter); ok && pr.Parent() == dfs && graphT != nil && types.Identical(pr.Type(), graphT) {
+					isParamGraph = true
+				}
+				if (isField || isParamGraph) && pv(lk.Index) == ssa.Value(cur) {
 					lookup = lk
 				}
 			}
@@ -721,23 +761,55 @@ func checkApply(c *Ctx, p *Prog, R *BusRoles, r5, r17 string, want map[string]bo
 			if vis == nil {
 				c.Violate(r5, name+"/termination/visited-set", pos, "apply keeps no visited set: nothing bounds the number of iterations", nil)
 			} else {
-				// (i) the current type is inserted every iteration
-				marked := false
-				for b := range body {
+				// (i) every type that becomes current is in the visited set before the next
+				// upcaster is called. Two equivalent formulations are recognised:
+				//   top:    visited[current] = true at the head of every iteration;
+				//   bottom: visited starts as {start type} and visited[next] = true is
+				//           executed on every path to the back edge.
+				var nextEx *ssa.Extract
+				for _, ed := range curType.Edges {
+					if ex, ok := ed.(*ssa.Extract); ok && ex.Tuple == ssa.Value(upCall) && ex.Index == 1 {
+						nextEx = ex
+					}
+				}
+				markedTop, markedBottom, seeded := false, false, false
+				for _, b := range f.Blocks {
 					for _, in := range b.Instrs {
-						if mu, ok := in.(*ssa.MapUpdate); ok && mu.Map == ssa.Value(vis) {
-							if stripConv(mu.Key) == ssa.Value(curType) && b.Dominates(upCall.Block()) {
-								marked = true
-							} else {
-								c.Violate(r5, name+"/termination/marks-current-type", p.Pos(in.Pos()), "the visited set is not extended with the loop's current type each iteration (it marks "+describeValue(mu.Key)+"): the set does not grow, so a chain that revisits a type is not detected", nil)
+						mu, ok := in.(*ssa.MapUpdate)
+						if !ok || mu.Map != ssa.Value(vis) {
+							continue
+						}
+						key := stripConv(mu.Key)
+						switch {
+						case !body[b] && key == ssa.Value(typeP) && b.Dominates(header):
+							seeded = true
+						case body[b] && key == ssa.Value(curType) && b.Dominates(upCall.Block()):
+							markedTop = true
+						case body[b] && nextEx != nil && key == ssa.Value(nextEx):
+							// on every path to the back edge
+							all := true
+							for _, pr := range header.Preds {
+								if body[pr] && !(b == pr || b.Dominates(pr)) {
+									all = false
+								}
 							}
+							if all {
+								markedBottom = true
+							} else {
+								c.Violate(r5, name+"/termination/marks-current-type", p.Pos(in.Pos()), "the type that becomes current is marked visited only on some paths to the next iteration", nil)
+							}
+						default:
+							c.Violate(r5, name+"/termination/marks-current-type", p.Pos(in.Pos()), "the visited set is not extended with the loop's current type each iteration (it marks "+describeValue(mu.Key)+"): the set does not grow, so a chain that revisits a type is not detected", nil)
 						}
 					}
 				}
-				if !marked {
-					c.Violate(r5, name+"/termination/marks-current-type", pos, "the loop does not mark its current type as visited before calling the upcaster", nil)
-				} else {
+				switch {
+				case markedTop:
 					c.Discharge(r5, name+"/termination/marks-current-type", pos, "visited[currentType] = true at the top of every iteration")
+				case markedBottom && seeded:
+					c.Discharge(r5, name+"/termination/marks-current-type", pos, "visited starts as {start type}; visited[next type] = true on every path to the next iteration")
+				default:
+					c.Violate(r5, name+"/termination/marks-current-type", pos, "the loop does not mark its current type as visited before calling the upcaster (neither at the top of the iteration, nor start-seeded with the next type marked before the next iteration)", nil)
 				}
 				// (ii) the value that becomes the next current type is tested against the
 				// visited set on every path to the back edge, with the hit leaving the loop
@@ -821,17 +893,44 @@ func checkApply(c *Ctx, p *Prog, R *BusRoles, r5, r17 string, want map[string]bo
 			}
 			if ld, ok := stripConv(src).(*ssa.UnOp); ok && ld.Op == token.MUL {
 				if ia, ok := ld.X.(*ssa.IndexAddr); ok && isConstInt(ia.Index, 0) {
-					if ex, ok := stripConv(ia.X).(*ssa.Extract); ok {
-						if lk, ok := ex.Tuple.(*ssa.Lookup); ok {
-							if _, ok := R.isUpMapLoad(lk.X); ok && curType != nil && stripConv(lk.Index) == ssa.Value(curType) {
-								okSel = true
+					// the list: the lookup for the current type, or a loop-carried variable
+					// whose every value is such a lookup (for cands := m[t]; …; cands = m[t])
+					var isCurLookup func(v ssa.Value, d int) bool
+					isCurLookup = func(v ssa.Value, d int) bool {
+						v = stripConv(v)
+						if ex, ok := v.(*ssa.Extract); ok {
+							v = ex.Tuple
+						}
+						switch x := v.(type) {
+						case *ssa.Lookup:
+							if _, ok := R.isUpMapLoad(x.X); !ok || curType == nil {
+								return false
 							}
+							idx := stripConv(x.Index)
+							if idx == ssa.Value(curType) {
+								return true
+							}
+							for _, ed := range curType.Edges { // the value current has at that point
+								if stripConv(ed) == idx {
+									return true
+								}
+							}
+							return false
+						case *ssa.Phi:
+							if d > 2 {
+								return false
+							}
+							for _, ed := range x.Edges {
+								if !isCurLookup(ed, d+1) {
+									return false
+								}
+							}
+							return len(x.Edges) > 0
 						}
+						return false
 					}
-					if lk, ok := stripConv(ia.X).(*ssa.Lookup); ok {
-						if _, ok := R.isUpMapLoad(lk.X); ok && curType != nil && stripConv(lk.Index) == ssa.Value(curType) {
-							okSel = true
-						}
+					if isCurLookup(ia.X, 0) {
+						okSel = true
 					}
 				}
 			}
